@@ -6,10 +6,11 @@ WT=${SEED_WT:-/tmp/seed_wt}
 git -C /repo worktree remove --force $WT 2>/dev/null
 git -C /repo worktree add -q --detach $WT HEAD || exit 3
 cd /verif
-out=/verif/seeded/RESULTS.tsv
+out=${SEED_OUT:-/verif/seeded/RESULTS.tsv}
 [ -z "$filter" ] && printf 'seeded\tproperty\tcheck_exit\tdetected\twall_s\tfirst_violation\n' > $out
 for d in seeded/*/; do
   id=$(basename $d); [ -n "$filter" ] && [[ "$id" != $filter* ]] && continue
+  [ -n "$filter" ] && [[ "$filter" == C??-? ]] && [[ "$id" != "$filter" ]] && continue
   pid=${id%%-*}
   git -C $WT reset -q --hard HEAD
   git -C $WT apply $(realpath $d/patch.diff) || { printf '%s\t%s\t-\tPATCH-FAILED\t0\t\n' "$id" "$pid" | tee -a $out; continue; }
